@@ -360,7 +360,9 @@ struct FreeCase {
 fn gen_worker(r: &mut Rng, t: usize, nshared: usize, nops: usize, tight: bool) -> Vec<Op> {
     let sites = free_sites();
     let mut ops = vec![];
+    // markers: (thread, rank among the thread's spans) resp. (thread, rank among the thread's events)
     let mut seq = 0u128;
+    let mut eseq = 0u128;
     // local table: handle counts; stack of entered spans
     let mut handles: Vec<u32> = vec![1; nshared];
     let mut site_of: Vec<usize> = vec![0; nshared];
@@ -431,7 +433,7 @@ fn gen_worker(r: &mut Rng, t: usize, nshared: usize, nops: usize, tight: bool) -
             7 => {
                 let cs = *r.pick(&EVENT_SITES);
                 let p = parent(r);
-                let mut vals = mark(t, &mut seq);
+                let mut vals = mark(t, &mut eseq);
                 extra_vals(r, sites[cs].fields.len(), &mut vals);
                 ops.push(Op::Event(cs, p, vals));
             }
@@ -456,6 +458,7 @@ fn gen_worker(r: &mut Rng, t: usize, nshared: usize, nops: usize, tight: bool) -
 fn gen_free(r: &mut Rng, nworkers: usize, nops: usize, tight: bool) -> FreeCase {
     let nshared = r.range(1, 3);
     let mut seq = 0u128;
+    let mut eseq = 0u128;
     let mut prelude = vec![];
     let mut entered = vec![];
     for i in 0..nshared {
@@ -467,7 +470,7 @@ fn gen_free(r: &mut Rng, nworkers: usize, nops: usize, tight: bool) -> FreeCase 
         }
     }
     if r.chance(50) {
-        prelude.push(Op::Event(6, ParentKind::Ctx, mark(0, &mut seq)));
+        prelude.push(Op::Event(6, ParentKind::Ctx, mark(0, &mut eseq)));
     }
     // one clone of every shared span per worker
     for _ in 0..nworkers {
@@ -476,7 +479,7 @@ fn gen_free(r: &mut Rng, nworkers: usize, nops: usize, tight: bool) -> FreeCase 
         }
     }
     let workers = (0..nworkers).map(|w| gen_worker(r, w + 1, nshared, nops, tight)).collect();
-    let mut postlude = vec![Op::Event(6, ParentKind::Ctx, mark(0, &mut seq))];
+    let mut postlude = vec![Op::Event(6, ParentKind::Ctx, mark(0, &mut eseq))];
     while let Some(k) = entered.pop() {
         postlude.push(Op::Exit(k));
     }
